@@ -96,6 +96,46 @@ def tlc_cmd(module: str, cfg: str | None, workers: int, metadir: Path, extra: li
     return cmd
 
 
+def prune_cache(prefix: str, key: str) -> None:
+    """drop cached generator output of earlier versions of the specification (file names are <prefix>-<spec hash>-...)"""
+    h = key.split("-")[0]
+    for f in CACHE.glob(f"{prefix}-*"):
+        parts = f.name.split("-")
+        if len(parts) > 1 and parts[1].split(".")[0] != h:
+            try:
+                f.unlink()
+            except OSError:
+                pass
+
+
+def _acquire_slots(heap: str) -> list:
+    """Machine-wide bound on the memory of concurrently running TLC JVMs (several checks may run at once: selftest jobs,
+    a quick run next to a thorough one): TLC_SLOTS slots of 3 GB heap each, held as advisory file locks that the
+    kernel drops with the process.  Returns the open lock files."""
+    import fcntl
+    import tempfile
+    total = int(os.environ.get("VERIF_TLC_SLOTS", "14"))
+    gb = float(heap[:-1]) / (1024 if heap.endswith("m") else 1)
+    need = min(total, max(1, -(-int(gb * 10) // 30)))
+    d = Path(tempfile.gettempdir()) / "verif-tlc-slots"
+    d.mkdir(exist_ok=True)
+    held: list = []
+    while True:
+        for k in range(total):
+            f = open(d / f"slot{k}", "w")
+            try:
+                fcntl.flock(f, fcntl.LOCK_EX | fcntl.LOCK_NB)
+                held.append(f)
+                if len(held) == need:
+                    return held
+            except OSError:
+                f.close()
+        for f in held:      # not enough free slots: release (no hold-and-wait) and retry
+            f.close()
+        held = []
+        time.sleep(0.25 + 0.5 * (os.getpid() % 7) / 7)
+
+
 def run_tlc(module: str, cfg: str | None = None, env: dict | None = None, workers: int = 1,
             extra: list[str] | None = None, timeout: int = 3600, heap: str = "3g", tag: str = "") -> dict:
     """Run TLC in tla/; returns {'out', 'rc', 'states', 'distinct', 'ok', 'wall'}.
@@ -106,6 +146,7 @@ def run_tlc(module: str, cfg: str | None = None, env: dict | None = None, worker
     metadir.mkdir(parents=True, exist_ok=True)
     e = dict(os.environ)
     e.update({k: str(v) for k, v in (env or {}).items()})
+    slots = _acquire_slots(heap)
     t0 = time.time()
     try:
         p = subprocess.run(tlc_cmd(module, cfg, workers, metadir, extra or [], heap), cwd=TLA, env=e,
@@ -115,6 +156,8 @@ def run_tlc(module: str, cfg: str | None = None, env: dict | None = None, worker
         out = (ex.stdout or b"").decode(errors="replace") if isinstance(ex.stdout, bytes) else (ex.stdout or "")
         rc = -9
     finally:
+        for f in slots:
+            f.close()
         subprocess.run(["rm", "-rf", str(metadir)])
     m = _STATS.findall(out)
     gen, dist = (int(m[-1][0]), int(m[-1][1])) if m else (0, 0)
